@@ -1,12 +1,14 @@
 import FurikoModel.Driver.HeapD
 import FurikoModel.Driver.CronD
 import FurikoModel.Driver.QueueD
+import FurikoModel.Driver.CronRecD
 open Furiko Furiko.Driver
 
 structure DState where
   heap : Heap.PQ := default
   cron : CronDS := {}
   queue : QueueDS := {}
+  cronrec : CronRecDS := {}
 
 def step (s : DState) (line : String) : DState × String :=
   let t := toks line
@@ -22,6 +24,9 @@ def step (s : DState) (line : String) : DState × String :=
     else if op.startsWith "q." then
       let (c, o) := queueStep s.queue t
       ({ s with queue := c }, o)
+    else if op.startsWith "cronrec." then
+      let (c, o) := cronRecStep s.cronrec t
+      ({ s with cronrec := c }, o)
     else (s, "bad-op")
 
 partial def loop (hin : IO.FS.Stream) (hout : IO.FS.Stream) (s : DState) : IO Unit := do
